@@ -79,7 +79,8 @@ func Get() *Server {
 				AdminPassword:                 "admin",
 				AdminTokenDuration:            "24h",
 				UseDefaultProject:             true,
-				SecretKey:                     ClusterSecret,
+				SecretKey:                     "verif-token-signing-key",
+				ClusterSecret:                 ClusterSecret,
 				SnapshotCacheSize:             10,
 				AuthWebhookCacheSize:          100,
 				AuthWebhookCacheTTL:           "10s",
